@@ -29,3 +29,52 @@ func HarnessC07_Websocket() {
 	vAssert(true, "reader returned")
 	vReach("c07-websocket")
 }
+
+// HarnessC07_WebsocketLinear: the frame reader's work grows no faster than linearly with the
+// stream length: one message of n, 2n, 4n fragments, n, 2n, 4n small messages (with a ping
+// between them, answered by a pong), or one frame of n, 2n, 4n bytes; masked (server side) or not.
+func HarnessC07_WebsocketLinear() {
+	server := vBool()
+	shape := vChoice(3)
+	key := [4]byte{1, 2, 3, 4}
+	cost := func(n int) int {
+		var wire []byte
+		switch shape {
+		case 0:
+			for i := 0; i < n; i++ {
+				op := uint8(0)
+				if i == 0 {
+					op = 2
+				}
+				wire = append(wire, encodeFrame(i == n-1, 0, op, server, key, 7, []byte{byte(i), 1})...)
+			}
+		case 1:
+			for i := 0; i < n; i++ {
+				wire = append(wire, encodeFrame(true, 0, 2, server, key, 7, []byte{byte(i)})...)
+				if i%4 == 3 {
+					wire = append(wire, encodeFrame(true, 0, 9, server, key, 7, []byte{7})...)
+				}
+			}
+		default:
+			form := 16
+			if n <= 125 {
+				form = 7
+			}
+			wire = encodeFrame(true, 0, 2, server, key, form, vPattern(n, 3))
+		}
+		return vMeasure(func() {
+			c := newConn(newFakeConn(wire), server, 0, 0)
+			got := 0
+			for {
+				_, p, err := c.ReadMessage()
+				if err != nil {
+					break
+				}
+				got += len(p)
+			}
+			vAssert(got > 0, "the well-formed stream is read")
+		})
+	}
+	vLinear(cost, 96, 2048, 8192, "frame reading cost grows no faster than linearly with the stream length")
+	vReach("c07-websocket-linear")
+}
